@@ -1204,14 +1204,34 @@ def inline_new_constants(tree, rel):
     consts = {}
 
     def scalar(v):
-        return isinstance(v, ast.Constant) and isinstance(v.value, (int, float, str, bytes))
+        return isinstance(v, ast.Constant) and (isinstance(v.value, (int, float, str, bytes)) or v.value is None)
 
     def immutable_literal(v):
         if scalar(v):
             return True
         if isinstance(v, ast.UnaryOp) and isinstance(v.op, (ast.USub, ast.UAdd)) and scalar(v.operand) and not isinstance(v.operand.value, (str, bytes)):
             return True
+        if isinstance(v, ast.Tuple) and v.elts and all(dotted_global(e) for e in v.elts):   # ERRORS = (pickle.UnpicklingError, EOFError)
+            return True
         return isinstance(v, ast.Tuple) and all(immutable_literal(e) for e in v.elts)       # DEFAULT_SIZE = (256, 256)
+
+    import builtins
+    top_bound = set()
+    stack = list(tree.body)
+    while stack:
+        st = stack.pop()
+        if isinstance(st, (ast.Import, ast.ImportFrom)):
+            top_bound |= {(a.asname or a.name).split('.')[0] for a in st.names}
+        elif isinstance(st, ast.ClassDef):
+            top_bound.add(st.name)
+        elif isinstance(st, (ast.Try, ast.If)):       # try: import cPickle as pickle / except ImportError: import pickle
+            stack.extend(st.body + st.orelse + getattr(st, 'finalbody', []) + [x for h in getattr(st, 'handlers', []) for x in h.body])
+
+    def dotted_global(e):
+        """an imported / builtin / module level class, possibly through attributes: bound once, at import time"""
+        while isinstance(e, ast.Attribute):
+            e = e.value
+        return isinstance(e, ast.Name) and (e.id in top_bound or hasattr(builtins, e.id)) and count.get(e.id, 0) == 0
     for st in tree.body:
         if isinstance(st, ast.Assign) and len(st.targets) == 1 and isinstance(st.targets[0], ast.Name) and immutable_literal(st.value) and \
                 count.get(st.targets[0].id) == 1 and \
